@@ -12,7 +12,7 @@ use std::collections::BTreeMap;
 
 pub struct C17;
 
-const NFORMS: u64 = 24;
+const NFORMS: u64 = 27;
 
 struct Case {
     src: String,
@@ -55,11 +55,21 @@ fn build(idx: u64) -> Case {
         20 => ("".into(), "".into(), "use a::f\n".into(), "{\n    let f = | | 7.0\n    f()\n  }".into(), None, 7.0, "local let shadows explicit import"),
         21 => ("".into(), "".into(), "mod a2 {\n  use a::f\n  pub fn h() {\n    f()\n  }\n}\n".into(), "a2::h()".into(), Some(pf), 11.0, "use inside a sibling module"),
         22 => ("  pub fn f2() {\n    f()\n  }\n".into(), "".into(), "".into(), "a::f2()".into(), Some(true), 11.0, "unqualified sibling inside a"),
-        _ => ("".into(), "".into(), "mod a2 {\n  pub use a::b\n}\n".into(), "a2::b::g()".into(), Some(pb && pg), 22.0, "re-exported module then path"),
+        23 => ("".into(), "".into(), "mod a2 {\n  pub use a::b\n}\n".into(), "a2::b::g()".into(), Some(pb && pg), 22.0, "re-exported module then path"),
+        // the same relative path, written in a function that follows the nested module in the source
+        24 => ("".into(), "".into(), "".into(), "a::via()".into(), Some(pg), 22.0, "relative path b::g from inside a, after mod b"),
+        // a module-level let inside a, then a top-level let that refers into a
+        25 => ("".into(), "".into(), "let y = a::f()\n".into(), "y".into(), Some(pf), 11.0, "top-level let after a module that contains a let"),
+        _ => ("".into(), "".into(), "let y = a::b::g()\n".into(), "y".into(), Some(pb && pg), 22.0, "top-level let into the nested module, after a module-level let"),
+    };
+    let in_a_after: String = match form {
+        24 => "  pub fn via() {\n    b::g()\n  }\n".into(),
+        25 | 26 => "  let k = 1.0\n".into(),
+        _ => String::new(),
     };
     let _ = (&mut in_a, &mut in_b, &mut root);
     let src = format!(
-        "mod a {{\n  {}fn f() {{\n    11.0\n  }}\n{in_a}  {}mod b {{\n    {}fn g() {{\n      22.0\n    }}\n{in_b}  }}\n}}\n{root}fn dsp() {{\n  {body}\n}}\n",
+        "mod a {{\n  {}fn f() {{\n    11.0\n  }}\n{in_a}  {}mod b {{\n    {}fn g() {{\n      22.0\n    }}\n{in_b}  }}\n{in_a_after}}}\n{root}fn dsp() {{\n  {body}\n}}\n",
         p(pf),
         p(pb),
         p(pg)
